@@ -1251,6 +1251,8 @@ def arctan(x):
 
 
 def radians(x):
+    if isinstance(x, (list, tuple)):
+        x = np.array(list(x), dtype=object)
     if isinstance(x, np.ndarray):
         return np.frompyfunc(radians, 1, 1)(x)
     if not isinstance(x, (SNum, Dual)):
@@ -1259,6 +1261,8 @@ def radians(x):
 
 
 def degrees(x):
+    if isinstance(x, (list, tuple)):
+        x = np.array(list(x), dtype=object)
     if isinstance(x, np.ndarray):
         return np.frompyfunc(degrees, 1, 1)(x)
     if not isinstance(x, (SNum, Dual)):
